@@ -167,3 +167,13 @@ Proof.
     + eapply NoDup_map_inv. exact Hb.
     + apply teq_In; assumption.
 Qed.
+
+(* same_tree is an equivalence (no well-formedness needed) *)
+Lemma same_tree_refl a : same_tree a a = true.
+Proof. unfold same_tree. apply tree_eqb_eq. reflexivity. Qed.
+
+Lemma same_tree_sym a b : same_tree a b = true -> same_tree b a = true.
+Proof. unfold same_tree. rewrite !tree_eqb_eq. congruence. Qed.
+
+Lemma same_tree_trans a b c : same_tree a b = true -> same_tree b c = true -> same_tree a c = true.
+Proof. unfold same_tree. rewrite !tree_eqb_eq. congruence. Qed.
